@@ -40,4 +40,25 @@ def handleMsgOver (c : Ctx) (m : Msg) (evs : List WEv) : HOut × Bytes × List W
     (.finished (c.handleMsg m true).1 (c.handleMsg m true).2.1 (c.handleMsg m true).2.2, [], evs)
   else handleMsgAfter c m (writeAll m.pkt evs).1
 
+/-- the bytes `handle_packet` hands to the transport for an inbound packet (its acknowledgement), if any -/
+def ackOf (c : Ctx) (alive : Nat → Bool) (p : RxPacket) : Option Bytes :=
+  ((c.handlePkt alive p true).2.1.filterMap fun e => match e with | .write b => some b | _ => none).head?
+
+/-- `handle_packet` over a real transport: bookkeeping and deliveries first (they precede the write in the code), then the
+    acknowledgement through `write_all`; parked inside that write the handler is in the state it ends in -/
+def handlePktOver (c : Ctx) (alive : Nat → Bool) (p : RxPacket) (evs : List WEv) : HOut × Bytes × List WEv :=
+  match ackOf c alive p with
+  | none => (.finished (c.handlePkt alive p true).1 (c.handlePkt alive p true).2.1 (c.handlePkt alive p true).2.2, [], evs)
+  | some ack =>
+    let r := writeAll ack evs
+    (match r.1.out with
+     | .done => .finished (c.handlePkt alive p true).1 (c.handlePkt alive p true).2.1 (c.handlePkt alive p true).2.2
+     | .err => .finished (c.handlePkt alive p false).1 (c.handlePkt alive p false).2.1 (c.handlePkt alive p false).2.2
+     | .pending => .suspended (c.handlePkt alive p false).1, r.1.acc, r.1.evs)
+
+/-- what the handler has done to the context, whatever became of the write -/
+def HOut.ctx : HOut → Ctx
+  | .finished c _ _ => c
+  | .suspended c => c
+
 end Poster
